@@ -50,10 +50,10 @@ CONSTANTS
     CallValues,    \* values carried by CALL / CREATE
     Regimes,       \* fork regimes (see below)
     Prefills,      \* number of entries already in the ETX cache when the tx starts
-    TxKinds,       \* subset of {"call","create","sdata","kquai","xsend","inbound"}
+    TxKinds,       \* subset of {"call","create","sdata","kquai","xsend","inbound","pbad"} (pbad: value call to the precompile with malformed input)
     OpKinds,       \* subset of {"ETX","CONVERT","XCALL","UNWRAP","CLAIM"}
     DestClasses, AmtClasses, GlClasses, FeeClasses, AlClasses,
-    FrameKinds,    \* subset of {"call","delegate","callcode","static","create","create2"}: frame-entering instructions
+    FrameKinds,    \* subset of {"call","delegate","callcode","static","create","create2","pcall"}: frame-entering instructions (pcall: CALL to the precompile)
     CallTargets,   \* targets of CALL / DELEGATECALL / CALLCODE / STATICCALL inside frames ({} stands for every account)
     TxTargets,     \* recipients of transactions / inbound ETXs ({} stands for every account)
     Benefs,        \* beneficiaries of SELFDESTRUCT ({} stands for every account)
@@ -67,9 +67,12 @@ CONSTANTS
 MAXU == -1   \* 2^256 - 1
 BIG  == -2   \* a number above every balance but far below 2^256 (2^64 * fee rate)
 
-Special == {"Z", "F", "N", "Q"}   \* zero address, fresh address, address created by CREATE / CREATE2, kQuai setting address
+\* zero address, fresh address, address created by CREATE / CREATE2, kQuai setting address, a precompiled contract of
+\* this zone (bn256ScalarMul: fails on a point off the curve and on less than 6000 gas); "P" holds a balance from the start
+\* (the account exists) and is a target only where a universe names it
+Special == {"Z", "F", "N", "Q", "P"}
 Acct == EOAs \cup Contracts \cup Special
-AllButN == Acct \ {"N"}
+AllButN == Acct \ {"N", "P"}
 CallTargetSet == IF CallTargets = {} THEN AllButN ELSE CallTargets
 TxTargetSet   == IF TxTargets = {} THEN AllButN ELSE TxTargets
 BenefSet      == IF Benefs = {} THEN AllButN ELSE Benefs
@@ -233,6 +236,17 @@ TopCall ==
                   MkObs(b2, NEtx(etx), wq, lock, -1, -1, IF enter THEN "enter" ELSE "plain"), 1)
     /\ UNCHANGED <<code, ncreated, sui, wq, lock, etx, op, gh, devs, blockOut, survAll, bdevs, ntx>>
 
+\* Top-level call to the precompile "P" with malformed input: evm.Call has created / credited the account (Transfer) after
+\* its snapshot when the precompile fails; the error epilogue reverts to the snapshot and consumes all gas: the transaction
+\* fails, nothing but the gas charge remains.  (A well-formed call is TopCall with to = "P": the value stays on the
+\* precompile address.)  Observed at CaptureEnd.
+TopPCallFail ==
+    /\ tx.phase = "begun" /\ tx.kind = "pbad"
+    /\ tx' = [tx EXCEPT !.phase = "ending", !.status = "failed", !.hard = TRUE]
+    /\ Log(Rec("top", tx.payer, "P", tx.v, 0, 0, [k |-> "pbad", enter |-> FALSE]),
+           MkObs(bal, NEtx(etx), wq, lock, -1, -1, "pfail"), 1)
+    /\ UNCHANGED <<bal, code, ncreated, sui, wq, lock, frames, etx, op, gh, devs, blockOut, survAll, bdevs, ntx>>
+
 \* Inbound ETX whose gas limit exceeds block gas limit / MinimumEtxGasDivisor: subGasETX fails, nothing runs,
 \* the receipt is "failed" and the staged value is lost when the zero address is reset.
 EtxGasLimitReached ==
@@ -326,6 +340,22 @@ Call(t, v) ==
                              IF enter THEN "enter" ELSE "plain"), 1)
     /\ UNCHANGED <<code, ncreated, sui, wq, lock, tx, etx, op, gh, devs, blockOut, survAll, bdevs, ntx>>
 
+
+\* CALL to the precompile "P".  oc: "ok" (well-formed input, enough gas) | "bad" (malformed input) | "lowgas" (less gas than
+\* RequiredGas).  evm.Call: balance check, snapshot, Transfer, RunPrecompiledContract; on error revertToSnapshot (the
+\* transfer is undone), the gas handed to the call is consumed, status 0.  No frame is entered.
+PCall(v, oc) ==
+    /\ CanOp /\ ~(Cur.static /\ v > 0)
+    /\ LET s == Cur.self
+           short == v > 0 /\ bal[s] < v
+           good == ~short /\ oc = "ok"
+           b1 == [bal EXCEPT ![s] = @ - v]
+           b2 == IF good THEN [b1 EXCEPT !["P"] = @ + v] ELSE bal
+       IN  /\ bal' = b2
+           /\ frames' = Bump
+           /\ Log(Rec("pcall", s, "P", v, 0, 0, [k |-> "pcall", oc |-> oc, enter |-> FALSE]),
+                  MkObs(b2, NEtx(etx), wq, lock, IF good THEN 1 ELSE 0, 1, IF short THEN "insufficient" ELSE oc), 1)
+    /\ UNCHANGED <<code, ncreated, sui, wq, lock, tx, etx, op, gh, devs, blockOut, survAll, bdevs, ntx>>
 
 \* opDelegateCall -> evm.DelegateCall: snapshot, run the CALLEE's code as the CALLER: address, caller and value of the
 \* parent frame are kept, nothing is transferred.  An ETX / CONVERT / lockup operation / SELFDESTRUCT / CALL with value
@@ -834,6 +864,7 @@ TxStart ==
     \/ \E payer \in EOAs \cup {"Q"}, kind \in TxKinds \ {"inbound"}, v \in TxValues, g \in GasLimits, p \in Prices,
           rg \in Regimes, pf \in Prefills :
           \/ kind = "call"   /\ \E t \in TxTargetSet : TxBegin(payer, kind, t, v, g, p, rg, pf)
+          \/ kind = "pbad"   /\ TxBegin(payer, kind, "P", v, g, p, rg, pf)
           \/ kind = "create" /\ TxBegin(payer, kind, "N", v, g, p, rg, pf)
           \/ kind = "sdata"  /\ v = 0 /\ TxBegin(payer, kind, payer, 0, g, p, rg, pf)
           \/ kind = "kquai"  /\ v = 0 /\ TxBegin(payer, kind, "Q", 0, g, p, rg, pf)
@@ -844,14 +875,15 @@ TxStart ==
 Next ==
     \/ tx.phase = "idle" /\ ntx < MaxTx /\ TxStart
     \/ tx.phase = "begun" /\
-          \/ TopCall \/ TopCreate \/ TopCreate_NoAddress \/ TopXSend \/ EtxGasLimitReached
-          \/ \E b \in Acct \ {"N"} : TxSelfDestructByData(b, IntrinsicGas)
+          \/ TopCall \/ TopPCallFail \/ TopCreate \/ TopCreate_NoAddress \/ TopXSend \/ EtxGasLimitReached
+          \/ \E b \in AllButN : TxSelfDestructByData(b, IntrinsicGas)
           \/ \E dc \in {"freeze", "garbage"} : TxKQuaiControl(dc, IntrinsicGas)
     \/ InFrame /\
           \/ "call" \in FrameKinds     /\ \E t \in CallTargetSet, v \in CallValues : Call(t, v)
           \/ "delegate" \in FrameKinds /\ \E t \in CallTargetSet : DelegateCall(t)
           \/ "callcode" \in FrameKinds /\ \E t \in CallTargetSet, v \in CallValues : CallCode(t, v)
           \/ "static" \in FrameKinds   /\ \E t \in CallTargetSet : StaticCall(t)
+          \/ "pcall" \in FrameKinds    /\ \E v \in CallValues, oc \in {"ok", "bad", "lowgas"} : PCall(v, oc)
           \/ "create" \in FrameKinds   /\ \E v \in CallValues : Create(v) \/ Create_NoAddress(v)
           \/ "create2" \in FrameKinds  /\ \E v \in CallValues : Create2(v)
           \/ Stop \/ ReturnCode \/ Revert \/ Fail \/ Create_CodeStoreOOG_NotReverted
